@@ -11,11 +11,13 @@
        LEAVES_LOOP, and hands the inner scope to combine_subscopes so that a
        block ending in break/continue still reaches the loop's exit scopes;
      - the else clause of a loop that may run zero times starts from
-       (state before the loop) U (state after the body).
+       (state before the loop) U (state after the body);
+     - visit_Try hands the scope after the exception-path visit of the finally block to
+       current_loop_scopes when a break/continue leaves the try statement.
    No proofs in this file. *)
 From Coq Require Import NArith List Bool.
 Import ListNotations.
-Require Import PV.Scopes.Syntax.
+Require Import PV.Scopes.Syntax PV.Scopes.Guards.
 
 Definition vmap := list (var * list node).
 
@@ -155,8 +157,15 @@ Definition fin_after_te (a : list (var * node)) (st t : state) : scope * state :
   suppress_leave (grouped a) (enter st) t.
 Definition fin_first_entry (st : state) (sf : scope * state) : state :=
   combine [cur (snd sf)] (enter (restore st (snd sf))).
-Definition fin_second_entry (st : state) (sf : scope * state) (g2 : state) : state :=
-  combine [fst sf] (restore (restore st (snd sf)) g2).
+(* after the first visit of the finally block (g2; its dict is `interrupted_scope`): when the
+   try statement contains a break/continue of an enclosing loop, or the finally block itself
+   ended in one, and the block did not leave the scope, that dict joins current_loop_scopes *)
+Definition fin_mid (jump : bool) (st : state) (sf : scope * state) (g2 : state) : state :=
+  let r := restore (restore st (snd sf)) g2 in
+  if (jump || ll (cur g2)) && negb (ls (cur g2))
+  then mkState (cur r) (loops r ++ [cur g2]) (u2d r) else r.
+Definition fin_second_entry (jump : bool) (st : state) (sf : scope * state) (g2 : state) : state :=
+  combine [fst sf] (fin_mid jump st sf g2).
 
 Definition if_mid (st s1 : state) : state := enter (restore st s1).
 Definition if_finish (st s1 s2 : state) : state :=
@@ -196,7 +205,7 @@ Fixpoint visit_s (s : stmt) (st : state) {struct s} : state :=
       else
         let sf := fin_after_te (assigned_b b ++ assigned_hs hs ++ assigned_b e) st (try_except (fin_te_entry st)) in
         let g2 := visit_b f (fin_first_entry st sf) in
-        visit_b f (fin_second_entry st sf g2)
+        visit_b f (fin_second_entry (free_jump_b b || free_jump_hs hs || free_jump_b e) st sf g2)
   end
 with visit_b (b : block) (st : state) {struct b} : state :=
   match b with
